@@ -85,11 +85,16 @@ def make_fw():
 
 
 def run_start(plan):
-    """Real FirewallClient.setup + start. Returns ('ok', bytes) or ('unicodeEncodeError', b'')."""
+    """Real FirewallClient.setup + start in the real order of events of client.main/_main:
+    `auto_nets` is empty when setup() runs (FirewallClient.__init__), the server's route message then
+    appends to the list the client object holds (`fw.auto_nets.append(...)` in onroutes), and only then
+    start() runs.  Returns ('ok', bytes) or ('unicodeEncodeError', b'')."""
     fw = make_fw()
-    fw.auto_nets = list(plan['auto'])
+    assert fw.auto_nets == []
     fw.setup(list(plan['inc']), list(plan['exc']), list(plan['ns']), plan['p6'], plan['p4'], plan['d6'],
              plan['d4'], plan['udp'], plan['user'], plan['group'], plan['tmark'])
+    for net in plan['auto']:
+        fw.auto_nets.append(tuple(net))      # what onroutes does for every accepted route
     try:
         fw.start()
     except UnicodeEncodeError:
@@ -298,7 +303,9 @@ def rand_plan(rng, big=False, odd=False):
     fams = rng.choice([[AF_INET], [AF_INET6], [AF_INET, AF_INET6], [AF_INET, AF_INET6]])
     inc = [rand_subnet(rng, rng.choice(fams)) for _ in range(n)]
     exc = [rand_subnet(rng, rng.choice(fams)) for _ in range(rng.choice([0, 1, 2]) if not big else rng.choice([0, 40]))]
-    auto = [rand_subnet(rng, rng.choice(fams))[:3] + (0, 0) for _ in range(rng.choice([0, 0, 2]))]
+    auto = [rand_subnet(rng, rng.choice(fams))[:3] + (0, 0) for _ in range(rng.choice([0, 0, 1, 2, 3]))]
+    if auto and rng.random() < 0.3:
+        inc = []                             # --auto-nets with no explicit subnets
     ns = [(f, rng.choice(V4 if f == AF_INET else V6)) for f in [rng.choice(fams) for _ in range(rng.choice([0, 1, 2, 5]))]]
     plan = dict(inc=inc, exc=exc, auto=auto, ns=ns,
                 p6=rng.choice(PORTS), p4=rng.choice(PORTS), d6=rng.choice(PORTS), d4=rng.choice(PORTS),
